@@ -528,6 +528,7 @@ func runScenario(out *vh.Out, w *world, sc *scenario, r *vh.Rng, rounds int) {
 	}
 	out.Line("rcfg sc=%d min=%d init=%d max=%d peers=%s pattern=%s period=%d local=%s next=%d", sc.id, sc.minI, sc.initI, sc.maxI,
 		kindsString(sc.kinds), sc.pattern, sc.period, sc.localMode, rig.NextInstance())
+	out.Line("pinit sc=%d next=%d store=%d", sc.id, rig.NextInstance(), storeNext(e.client))
 	for len(delayCh) > 0 {
 		<-delayCh
 	}
@@ -649,6 +650,7 @@ func pollScenario(out *vh.Out, w *world, sc *scenario, r *vh.Rng, polls int) {
 	}
 	out.Line("pcfg sc=%d peers=%s pattern=%s period=%d local=%s next=%d", sc.id, kindsString(sc.kinds), sc.pattern, sc.period,
 		sc.localMode, rig.NextInstance())
+	out.Line("pinit sc=%d next=%d store=%d", sc.id, rig.NextInstance(), storeNext(e.client))
 	for k := 0; k < polls; k++ {
 		// let some time pass: a fraction of a period up to a few periods
 		e.clk.Add(time.Duration(dur(r, sc.period/8, 3*sc.period)))
